@@ -235,6 +235,34 @@ def run(ctx: Ctx) -> None:
             ok = ok and isinstance(val, (int, float)) and val > 0
         ctx.check("C18.R5", "config:Config", f"default {k}", ok, f"Config.{k} default is {norm(v) if v is not None else 'missing'}", v)
 
+    # ---- R7 the supervisor replaces workers that exit cleanly (e.g. after max_requests)
+    ctx.rule("C18.R7", "supervisor: exited workers are joined and removed, the loop re-populates up to config.workers with the same worker function / config / sockets / shutdown event, and a non-zero exit code stops everything; serve() wires wsgi_max_body_size and the shutdown trigger", floor=5)
+    rn = repo.func("run", "run")
+    wl = [n for n in walk_local(rn) if isinstance(n, ast.While) and norm(n.test) == "active"]
+    ok = len(wl) == 1
+    pop = [c for c in calls(rn) if call_name(c) == "_populate"]
+    je = [c for c in calls(rn) if call_name(c) == "_join_exited"]
+    if ok:
+        inloop = lambda c: any(a is wl[0] for a in __import__("hcverif.astq", fromlist=["ancestors"]).ancestors(c))
+        ok = len(pop) == 1 and inloop(pop[0]) and [norm(a) for a in pop[0].args] == ["processes", "config", "worker_func", "sockets", "shutdown_event", "ctx"] and any(inloop(c) for c in je) and pop[0].lineno < min(c.lineno for c in je) and not {a for a in guard_atoms(pop[0]) if a[0] != "active"}
+    ctx.check("C18.R7", "run:run", "while active: _populate(...); wait; _join_exited(...)", ok, "an exited worker would not be replaced", wl[0] if wl else rn)
+    stop = [n for n in walk_local(rn) if isinstance(n, ast.Assign) and dotted(n.targets[0]) == "active" and norm(n.value) == "False" and ("exitcode != 0", True) in guard_atoms(n)]
+    ctx.check("C18.R7", "run:run", "non-zero worker exit code ends the supervisor loop", len(stop) == 1, "a crashing worker must stop the server instead of being restarted forever", stop[0] if stop else rn)
+    pp = repo.func("run", "_populate")
+    rng = [n for n in walk_local(pp) if isinstance(n, ast.For)]
+    ok = len(rng) == 1 and norm(rng[0].iter) == "range(config.workers - len(processes))"
+    pr = [c for c in calls(pp) if call_name(c) == "ctx.Process"]
+    ok = ok and len(pr) == 1 and norm(kwarg(pr[0], "target")) == "worker_func" and norm(kwarg(pr[0], "kwargs")) == "{'config': config, 'shutdown_event': shutdown_event, 'sockets': sockets}" and "processes.append(process)" in norm(pp) and "process.start()" in norm(pp)
+    ctx.check("C18.R7", "run:_populate", "starts config.workers - len(processes) workers with (config, shutdown_event, sockets)", ok, "worker replacement changed", pp)
+    jx = repo.func("run", "_join_exited")
+    ok = "worker.exitcode is not None" in norm(jx) and "del processes[index]" in norm(jx) and "worker.join()" in norm(jx)
+    ctx.check("C18.R7", "run:_join_exited", "exited workers joined and removed from the list", ok, "exited workers must leave the process list so that they are replaced", jx)
+    for rt in ("asyncio", "trio"):
+        sv = repo.func(rt, "serve")
+        ws_ = [c for c in calls(sv) if call_name(c) == "worker_serve"]
+        ok = len(ws_) == 1 and norm(arg(ws_[0], 0)) == "wrap_app(app, config.wsgi_max_body_size, mode)" and norm(arg(ws_[0], 1)) == "config" and norm(kwarg(ws_[0], "shutdown_trigger")) == "shutdown_trigger"
+        ctx.check("C18.R7", f"{rt}:serve", "worker_serve(wrap_app(app, config.wsgi_max_body_size, mode), config, shutdown_trigger=shutdown_trigger)", ok, "serve() must pass the WSGI body limit and the caller's shutdown trigger", ws_[0] if ws_ else sv)
+
     from ..core import Alias
     from . import c06
 
